@@ -22,7 +22,7 @@ from typing import Any, Dict, List, Optional, Tuple
 import numpy as np
 
 from netqasm.qlink_compat import RequestType
-from netqasm.sdk.build_epr import EprMeasBasis, basis_to_rotation
+from netqasm.sdk.build_epr import EntRequestParams, EprMeasBasis, basis_to_rotation
 from netqasm.sdk.build_types import GenericHardwareConfig, NVHardwareConfig
 from netqasm.sdk.epr_socket import EPRSocket
 from netqasm.sdk.qubit import Qubit
@@ -58,7 +58,7 @@ ASSUMPTIONS = [
     "measure-directly: both sides are asked for the same named basis (post-processing is only defined then)",
 ]
 PROBES = ["bell:PHI_PLUS", "bell:PSI_PLUS", "bell:PSI_MINUS", "bell:PHI_MINUS", "variant:recv_keep", "variant:recv_keep_info",
-          "variant:recv_keep_post", "variant:recv_rsp", "variant:recv_rsp_info", "variant:recv_measure", "measure-per-pair-bell-states", "pairs>=2", "other-live-qubits", "nv",
+          "variant:recv_keep_post", "variant:recv_rsp", "variant:recv_rsp_info", "variant:recv_measure", "measure-per-pair-bell-states", "measure-receiver-told-basis", "keep-single-pair-sequential-flag", "pairs>=2", "other-live-qubits", "nv",
           "expect-off", "correction-due-on-pair>=1", "basis-non-Z"]
 
 VARIANTS = ["recv_keep", "recv_keep_info", "recv_keep_post", "recv_rsp", "recv_measure", "recv_rsp_info"]
@@ -91,7 +91,10 @@ def run(ch: Choices, opts: Dict[str, Any]) -> Dict[str, Any]:
         n_other = 0
     if "nv-rsp-multi" in avoid and variant in ("recv_rsp", "recv_rsp_info") and hw == "nv":
         n_pairs = 1
-    if "measure-basis-unknown-to-receiver" in avoid:
+    # measure-directly: either the plain recv_measure() call (which cannot be told the basis: recorded finding for the
+    # non-Z ones), or the receiver states the bases itself through the builder-level call recv_measure() wraps
+    told = variant == "recv_measure" and (not calm) and ch.flag(1, 2, "toldbasis")
+    if "measure-basis-unknown-to-receiver" in avoid and not told:
         basis = EprMeasBasis.Z
     else:
         basis = BASES[ch.draw(6, "basis")]
@@ -119,7 +122,7 @@ def run(ch: Choices, opts: Dict[str, Any]) -> Dict[str, Any]:
     if not expect:
         bump(probes, "expect-off")
     sample = {"variant": variant, "pairs": n_pairs, "expect_phi_plus": expect, "hardware": hw, "transpiler": transp,
-              "other_live": n_other, "basis": basis.name if variant == "recv_measure" else None}
+              "other_live": n_other, "basis": basis.name if variant == "recv_measure" else None, "receiver_told_basis": told}
     SimNetworkInfo.node_ids.update({"n0": 0, "n1": 1})
     SimNetworkInfo.app_nodes.update({"alice": "n0", "bob": "n1"})
     state: Dict[str, Any] = {"done": 0}
@@ -193,10 +196,14 @@ def run(ch: Choices, opts: Dict[str, Any]) -> Dict[str, Any]:
                     net.uni.inject([slot], v)
                     vecs.append(v)
                 state["other_vecs"] = vecs
+            # a single pair may also be asked for in sequential mode without a post routine
+            seq1 = variant in ("recv_keep", "recv_keep_info") and n_pairs == 1 and (not calm) and ch.flag(1, 3, "seq1")
+            if seq1:
+                bump(probes, "keep-single-pair-sequential-flag")
             if variant == "recv_keep":
-                state["rqs"] = sock.recv_keep(number=n_pairs, expect_phi_plus=expect)
+                state["rqs"] = sock.recv_keep(number=n_pairs, expect_phi_plus=expect, sequential=seq1)
             elif variant == "recv_keep_info":
-                qs, infos = sock.recv_keep_with_info(number=n_pairs, expect_phi_plus=expect)
+                qs, infos = sock.recv_keep_with_info(number=n_pairs, expect_phi_plus=expect, sequential=seq1)
                 state["rqs"] = qs
                 state["rinfos"] = infos
             elif variant == "recv_keep_post":
@@ -215,6 +222,11 @@ def run(ch: Choices, opts: Dict[str, Any]) -> Dict[str, Any]:
                 qs, infos = sock.recv_rsp_with_info(number=n_pairs, expect_phi_plus=expect)
                 state["rqs"] = qs
                 state["rinfos"] = infos
+            elif told:
+                r3 = basis_to_rotation(basis)
+                state["rres"] = conn.builder.sdk_recv_epr_measure(params=EntRequestParams(
+                    remote_node_id=sock.remote_node_id, epr_socket_id=sock._epr_socket_id, number=n_pairs,
+                    expect_phi_plus=expect, post_routine=None, sequential=False, rotations_local=r3, rotations_remote=r3))
             else:
                 state["rres"] = sock.recv_measure(number=n_pairs, expect_phi_plus=expect)
             conn.flush()
@@ -350,7 +362,7 @@ def run(ch: Choices, opts: Dict[str, Any]) -> Dict[str, Any]:
                 # with the same probability
                 wantk = phi_plus_distribution(basis)
                 if abs(wantk[(mc, mr)] - p) > 1e-9:
-                    raise Violation("state", f"measure|distribution-not-phi-plus|bell={pair['bell'].name}|basis={basis.name}",
+                    raise Violation("state", f"measure|distribution-not-phi-plus|bell={pair['bell'].name}|basis={basis.name}{'|receiver-told-the-basis' if told else ''}",
                                     {"form": "per-pair", "pair": k, "raw": pair["out"], "raw_probability": round(p, 6), "reported": (mc, mr),
                                      "phi_plus_probability": round(wantk[(mc, mr)], 6),
                                      "bells": [b.name for b in state["mbells"]], **sample})
@@ -358,10 +370,12 @@ def run(ch: Choices, opts: Dict[str, Any]) -> Dict[str, Any]:
             raise Violation("state", "measure|raw-outcome-altered-with-expectation-off", {"case": raw_mismatch, **sample})
         if state["mbells"] is not None:
             bump(probes, "measure-per-pair-bell-states")
+        if told:
+            bump(probes, "measure-receiver-told-basis")
         if expect and state["mbells"] is None:
             want = phi_plus_distribution(basis)
             if any(abs(got[k2] - want[k2]) > 1e-9 for k2 in got):
-                raise Violation("state", f"measure|distribution-not-phi-plus|bell={state['mbell'].name}|basis={basis.name}",
+                raise Violation("state", f"measure|distribution-not-phi-plus|bell={state['mbell'].name}|basis={basis.name}{'|receiver-told-the-basis' if told else ''}",
                                 {"got": {str(k2): round(v, 6) for k2, v in got.items()},
                                  "want": {str(k2): round(v, 6) for k2, v in want.items()}, **sample})
     for conn in (cconn, rconn):
